@@ -271,6 +271,10 @@ def gen_c15_spec(rng: random.Random, minutes_max: int) -> Dict[str, Any]:
                     it_.pop("remove_at", None)
     if rng.random() < 0.2:
         spec["task_start_lat"] = rng.choice([0.001, 0.05, 0.2])  # send tasks get to run that much after they were created
+        if rng.random() < 0.5:
+            # ... and the scheduler is started in the last instants of a minute: what it finds due then is sent although the
+            # send task gets to run in the next minute
+            spec["start_us"] = base + 60_000_000 - int(spec["task_start_lat"] * 1_000_000 * rng.choice([0.5, 0.9, 0.1]))
     if rng.random() < 0.15:
         # a listing that takes longer than a minute (a store that hangs): the next evaluation is more than a minute after
         # the previous one
